@@ -40,7 +40,7 @@ NOW = gen.T0
 
 
 def plan(tier, seed):
-    n, hs = (8, 6) if tier == "quick" else (32, 20)
+    n, hs = (8, 6) if tier == "quick" else (64, 40)
     return [{"case_seed": seed * 7919 + i, "histories": hs} for i in range(n)]
 
 
